@@ -63,8 +63,11 @@ func (vm *Manager) Listen(name string, sk string, allowUsers []string) (*netpkg.
 	return l, nil
 }
 
+// NewConn checks a visitor connection and hands it to the listener of the proxy it names.
+// accepted, if not nil, is called once the connection has passed the checks and before the proxy side can see it:
+// whatever must reach the visitor ahead of the proxy's own bytes (the answer to its request) is written there.
 func (vm *Manager) NewConn(name string, conn net.Conn, timestamp int64, signKey string,
-	useEncryption bool, useCompression bool, visitorUser string,
+	useEncryption bool, useCompression bool, visitorUser string, accepted func() error,
 ) (err error) {
 	vm.mu.RLock()
 	defer vm.mu.RUnlock()
@@ -89,6 +92,11 @@ func (vm *Manager) NewConn(name string, conn net.Conn, timestamp int64, signKey 
 		}
 		if useCompression {
 			rwc = libio.WithCompression(rwc)
+		}
+		if accepted != nil {
+			if err = accepted(); err != nil {
+				return
+			}
 		}
 		err = l.l.PutConn(netpkg.WrapReadWriteCloserToConn(rwc, conn))
 	} else {
